@@ -8,6 +8,7 @@ import Stef.Driver.Chunk
 import Stef.Driver.Spec
 import Stef.Driver.Codec
 import Stef.Driver.Limiter
+import Stef.Driver.Handshake
 
 open Stef.Driver
 
@@ -17,7 +18,9 @@ def mkHandlers : IO (List (List String × Handler)) := do
   let spec ← mkHandler ({} : SpecD.St) SpecD.step
   let codec ← mkHandler ({} : CodecD.St) CodecD.step
   let limiter ← mkHandler ({} : LimiterD.St) LimiterD.step
+  let hs ← mkHandler () HandshakeD.step
   pure [
+    (["hs"], hs),
     (["sl"], limiter),
     (["sd"], spec),
     (["ce", "cx"], codec),
